@@ -158,6 +158,15 @@ def expected(report):
     return e
 
 
+def _overridden_default():
+    # environments may re-word the success message with set_correct.override(...)
+    try:
+        from pedal.core.commands import set_correct
+        return {(set_correct.title, set_correct.message_template)}
+    except Exception:
+        return set()
+
+
 def round2(fr):
     """Round a Fraction to 2 decimals; None when it sits on a rounding tie
     (float representation then decides, which the statement does not fix)."""
@@ -184,7 +193,7 @@ def check(report, final, which=('C01', 'C02', 'C03')):
                         break
                 out.append(('C01', 'C01|shown-ineligible|' + st.split('+fields')[0] + ('+fields' if '+fields' in st else ''),
                             'no feedback is eligible but label=%r was shown (status of that feedback: %s)' % (final.label, st)))
-            elif (final.title, final.message) not in DEFAULT_PAIRS:
+            elif (final.title, final.message) not in DEFAULT_PAIRS | _overridden_default():
                 out.append(('C01', 'C01|default-text', 'default result has title/message %r/%r' % (final.title, final.message)))
         else:
             w = e.winner
